@@ -33,7 +33,7 @@ impl A {
         for _ in 0..ind {
             self.out.push_str("  ");
         }
-        self.out.push_str(s);
+        self.out.push_str(&s.replace('\n', "\\n").replace('\r', "\\r"));
         self.out.push('\n');
     }
     fn x(&self, x: &X) -> String {
